@@ -117,6 +117,49 @@ VarioStructured(i) ==
      ELSE <<SumSeq([r \in 1..(R - l) |-> SumSeq([c \in 1..i.cols |-> (i.f[r][c] - i.f[r + l][c]) * (i.f[r][c] - i.f[r + l][c])])]),
             (R - l) * i.cols>>]
 
+(* directional estimator (Matheron, no bandwidth): for EVERY direction u and bin e *)
+(* the sum runs over ALL pairs a<b whose distance is in the bin and whose          *)
+(* connecting line encloses less than the tolerance with the UNORIENTED axis u --  *)
+(* overlapping cones both count the pairs of the overlap, whatever the order or    *)
+(* orientation in which the directions are given (this is also what the caller     *)
+(* vario_estimate(direction=...) must return: its decision to let the kernel stop  *)
+(* at the first matching direction is an optimisation that must not be observable).*)
+(* i.dirs: non-zero integer d-tuples (not normalised); i.tol in {1, 3}: tolerance  *)
+(* tol*pi/8.  With s = v.u, n = |v|^2 |u|^2, a = 2 s^2 - n = n cos(2 theta):       *)
+(*   theta <   pi/8  <=>  a > 0 /\ 2 a^2 > n^2                                    *)
+(*   theta < 3 pi/8  <=>  a > 0 \/ 2 a^2 < n^2                                    *)
+(* 2 a^2 = n^2 has no integer solution with n > 0: no pair is ever on the boundary.*)
+InCone(v, u, tol) ==
+  LET s == Dot(v, u)  n == Norm2(v) * Norm2(u)  a == 2 * s * s - n IN
+  IF Norm2(v) = 0 THEN TRUE            \* coincident points count in every direction
+  ELSE IF tol = 1 THEN a > 0 /\ 2 * a * a > n * n
+  ELSE a > 0 \/ 2 * a * a < n * n
+VarioDirectional(i) ==
+  [u \in 1..Len(i.dirs) |->
+     [e \in 1..(Len(i.edges) - 1) |->
+        LET S == {ab \in PairsInBin(i, e) : InCone(Diff(i.pos[ab[1]], i.pos[ab[2]]), i.dirs[u], i.tol)}
+        IN <<SumSet(S, i), Cardinality(S) * Len(i.f)>>]]
+
+(* C16, histories on ONE generator object.  The settings of a vector field generator *)
+(* are [mean, ve, modes, seed] (mean velocity, variance 4^ve, number of modes, seed); *)
+(* operations re-assign one of them or generate a field.  The property is that every  *)
+(* generated field is the field of the CURRENT settings (mean = current mean velocity *)
+(* along e1, fluctuation scaled by the current mean and sqrt(var)), i.e. equal to what *)
+(* a freshly built generator with these settings returns: out.gens lists, for every   *)
+(* "gen" of the history, the settings its result must correspond to.                  *)
+ApplyOp(st, o) ==
+  CASE o.op = "mean"  -> [st EXCEPT !.mean = o.v]
+    [] o.op = "var"   -> [st EXCEPT !.ve = o.v]
+    [] o.op = "modes" -> [st EXCEPT !.modes = o.v]
+    [] o.op = "seed"  -> [st EXCEPT !.seed = o.v]
+    [] OTHER          -> st
+RECURSIVE HistGens(_, _)
+HistGens(st, ops) ==
+  IF ops = <<>> THEN <<>>
+  ELSE LET o == Head(ops) IN
+       IF o.op = "gen" THEN <<st>> \o HistGens(st, Tail(ops))
+       ELSE HistGens(ApplyOp(st, o), Tail(ops))
+
 (* C16: a single mode with z1 = 1, z2 = 0 at x = 0 returns the projector itself *)
 Projector(i) == [c \in 1..Len(i.kv) |-> Proj(i.kv, c)]
 
@@ -127,6 +170,8 @@ Result(i) ==
     [] i.kind = "krige"      -> [field |-> KrigeField(i), error |-> KrigeError(i)]
     [] i.kind = "vario_u"    -> [bins |-> VarioUnstructured(i)]
     [] i.kind = "vario_s"    -> [bins |-> VarioStructured(i)]
+    [] i.kind = "vario_d"    -> [dirs |-> VarioDirectional(i)]
+    [] i.kind = "vf_hist"    -> [gens |-> HistGens(i.init, i.ops)]
     [] i.kind = "projector"  -> [p |-> Projector(i)]
 
 CaseInit == \E n \in 1..Len(Cases) : inp = Cases[n]
